@@ -901,8 +901,6 @@ class Tie:
             done = cs.get(bad["id"], [])
             opl = [l for l in done if l.startswith("open ")]
             key = None
-            if rc == 124 and opl and " ret=0 " in opl[0] + " " and " cf=0" in opl[0] and bad["mode"] in ("file", "cb"):
-                key = "livelock-short-frame"       # see docs/C20.md, Findings
             first = next((l for l in cerr.split("\n") if "ERROR" in l or "runtime error" in l or "Assertion" in l), (cerr.strip().split("\n") or ["?"])[0])
             self.report(self.corrupt_replay(bad, extra=dict(rc=rc, stderr=cerr[-3000:], completed_lines=done[-4:])),
                         "%s on a corrupted archive (%s, %s access); last completed: %s | %s" % (
@@ -916,38 +914,60 @@ class Tie:
             self.compare_corrupt(v, cs.get(v["id"], []), ms.get(v["id"], []))
         return bad
 
-    def phase_finding_livelock(self):
-        """Directed repro of finding 'livelock-short-frame' (docs/C20.md): a seek-table entry that claims more decompressed
-        bytes than its frame regenerates, checksums off, FILE*/callback access: ZSTD_seekable_decompress never returns.
-        Run on every check so that the verdict does not depend on what the random corruptions happen to hit."""
+    def phase_short_frame(self):
+        """Corpus case (was finding 'livelock-short-frame', repaired in /repo by e8679b7): a seek-table entry that claims more
+        decompressed bytes than its frame regenerates, checksums off.  Before the repair ZSTD_seekable_decompress never returned
+        with FILE*/callback access; now every access mode must return corruption_detected promptly, as the model does when it
+        is driven with the decoder results observed."""
         x = bytes(range(16))
         xp = self.blob(x, "x")
-        ap = self.path("livelock.zst")
+        ap = self.path("shortframe.zst")
         rc, cl, cerr = self.run_c("content_file %s\ncinit 3 0 1000\nfinish 1000 1000\nlog\nsave %s\n" % (xp, ap))
         if rc != 0 or not os.path.exists(ap):
+            self.report(dict(kind="short-frame", rc=rc), "could not build the short-frame corpus archive", no_input=True)
             return
         arch = bytearray(open(ap, "rb").read())
         tstart = len(arch) - (17 + 8)
         if arch[tstart:tstart + 4] != struct.pack("<I", 0x184D2A5E):
+            self.report(dict(kind="short-frame"), "short-frame corpus archive has an unexpected layout", no_input=True)
             return
+        csize = struct.unpack("<I", arch[tstart + 8:tstart + 12])[0]
         arch[tstart + 12:tstart + 16] = struct.pack("<I", 32)          # dSize 16 -> 32
-        for mode in ("file", "cb"):
+        for mode in ("file", "cb", "mem"):
             v = dict(s=None, arch=bytes(arch), cls="T", note="entry 0 decompressed size 16 -> 32 (frame regenerates 16 bytes), no checksums",
-                     log=[], cf=0, id="lv_" + mode, mode=mode, reads=[("r", 0, 32)])
+                     log=[], cf=0, id="sf_" + mode, mode=mode, reads=[("r", 0, 32), ("r", 0, 16), ("r", 8, 24)])
             v["apath"] = self.blob(v["arch"], "cor")
-            rc, cl, cerr = self.run_c("\n".join(self.corrupt_ctext(v)) + "\n", timeout=6, linebuf=True)
+            rc, cl, cerr = self.run_c("\n".join(self.corrupt_ctext(v)) + "\n", timeout=8, linebuf=True)
             lines = [l for l in cl if l.strip()]
-            if rc == 124:
-                self.report(self.corrupt_replay(v, extra=dict(rc=rc, completed_lines=lines[-3:])),
-                            "ZSTD_seekable_decompress(offset 0, len 32) does not return (%s access): the frame completes after 16 of the 32 bytes its "
-                            "seek-table entry claims, checksums are off, and the reader restarts the same frame forever" % mode, key="livelock-short-frame")
-            elif rc != 0:
-                self.report(self.corrupt_replay(v, extra=dict(rc=rc, stderr=cerr[-2000:])), "crash (rc=%d) on the short-frame archive" % rc)
-            else:
-                rl = [l for l in lines if l.startswith("r ")]
-                if rl and not kv(rl[0])[2]["ret"].startswith("E"):
-                    self.report(self.corrupt_replay(v, extra=dict(observed=rl[0][:300])), "short-frame archive: 32 bytes reported as read from a 16-byte frame")
-            self.ctx.count(("finding-livelock", mode, rc))
+            rl = [l for l in lines if l.startswith("r ")]
+            try:
+                if rc == 124:
+                    raise Fail("ZSTD_seekable_decompress does not return (%s access): the frame completes after 16 of the 32 bytes its seek-table "
+                               "entry claims and the reader restarts the same frame forever" % mode)
+                if rc != 0:
+                    raise Fail("crash (rc=%d): %s" % (rc, cerr[-300:]))
+                mtext = ["x %s" % x.hex(), "log 0 %d:32:0" % csize, "rinit"]
+                for ln in rl:
+                    cmd, pos, d = kv(ln)
+                    orc = ";".join("%s:%s" % (t.split(":")[3], "1" if t.split(":")[5] == "1" else "0") for t in d["tr"].split(";") if t[0] in "kd")
+                    mtext.append("r %s %s %s" % (pos[0], pos[1], orc or "-"))
+                ml = [l for l in self.run_m("\n".join(mtext) + "\n") if l.startswith("r ")]
+                want = ["E20", "16", "E20"]
+                for ln, mln, w, rd in zip(rl, ml, want, v["reads"]):
+                    d = kv(ln)[2]
+                    md = kv(mln)[2]
+                    if d["ret"] != w:
+                        raise Fail("%s%s returned %s, expected %s (%s access)" % (rd[0], rd[1:], d["ret"], w, mode))
+                    if norm_ret(md.get("ret", "?")) != d["ret"]:
+                        raise Fail("%s%s returned %s, model %s" % (rd[0], rd[1:], d["ret"], mln[:120]))
+                    if w == "16" and d.get("data") != x.hex():
+                        raise Fail("read of the 16 bytes the frame holds returned other bytes")
+                self.ctx.count(("short-frame", mode))
+                self.ctx.cov["traces_validated_against_impl"] += 1
+            except Fail as e:
+                self.report(self.corrupt_replay(v, extra=dict(rc=rc, completed_lines=lines[-3:])), "short-frame archive: " + str(e))
+            except (IndexError, KeyError, ValueError) as e:
+                self.report(self.corrupt_replay(v), "short-frame archive: unparsable output (%r)" % (e,), no_input=True)
 
     def corrupt_replay(self, v, extra=None):
         s = v["s"]
@@ -1071,7 +1091,7 @@ def run(ctx):
     r = ctx.prove()
     t = Tie(ctx, rng)
     import time as _time
-    for ph in (t.phase_rawtable, t.phase_archives, t.phase_corrupt, t.phase_finding_livelock):
+    for ph in (t.phase_rawtable, t.phase_archives, t.phase_corrupt, t.phase_short_frame):
         t0 = _time.time()
         ph()
         core.log("C20 %s: %.1fs (evaluations so far %d)" % (ph.__name__, _time.time() - t0, ctx.cov["evaluations"]))
